@@ -68,6 +68,9 @@ func genYXPCase(r *Rng) Case {
 	if r.Chance(70) {
 		ex["b.must"] = mk("b", false)
 	}
+	if r.Chance(35) { // a second must on the same leaf: every one of them is compiled
+		ex["b.must2"] = mk("b", false)
+	}
 	if r.Chance(50) {
 		ex["b.when"] = mk("b", false)
 	}
@@ -80,6 +83,12 @@ func genYXPCase(r *Rng) Case {
 	if r.Chance(60) {
 		ex["m.must"] = mk("m", false)
 	}
+	if r.Chance(35) {
+		ex["m.must2"] = mk("m", false)
+	}
+	if r.Chance(30) { // a must a refine adds to the leaf copied from b's grouping (which may have musts of its own)
+		ex["m.refmust"] = mk("m", false)
+	}
 	if r.Chance(40) {
 		ex["m.useswhen"] = mk("m", false) // written on the uses in m, carried by the nodes copied from b's grouping
 	}
@@ -88,6 +97,9 @@ func genYXPCase(r *Rng) Case {
 	}
 	if r.Chance(50) {
 		ex["a2.must"] = mk("a2", false)
+	}
+	if r.Chance(35) {
+		ex["a2.must2"] = mk("a2", false)
 	}
 	if r.Chance(40) {
 		ex["a2.when"] = mk("a2", false)
@@ -123,14 +135,21 @@ func yxpTexts(c Case) []string {
 	dm := `module d { namespace "urn:d"; prefix d; container dtop { leaf a { type string; } } }`
 	bm := "module b { namespace \"urn:b\"; prefix b; import c { prefix x; }\n" +
 		"  typedef bt { " + typeOr("b.tpath") + " }\n" +
-		"  grouping bg {\n    leaf bl { type string;" + get("b.must", "must") + get("b.when", "when") + " }\n" +
+		"  grouping bg {\n    leaf bl { type string;" + get("b.must", "must") + get("b.must2", "must") + get("b.when", "when") + " }\n" +
 		"    leaf br { " + typeOr("b.path") + " }\n  }\n}\n"
 	mm := "module m { namespace \"urn:m\"; prefix m; import b { prefix b; } import c { prefix y; } import d { prefix x; }\n" +
-		"  container mtop {\n    uses b:bg" + usesBody(get("m.useswhen", "when")) + "\n    leaf ml { type string;" + get("m.must", "must") + " }\n" +
+		"  container mtop {\n    uses b:bg" + usesBody(get("m.useswhen", "when")+refineBody(get("m.refmust", "must"))) + "\n    leaf ml { type string;" + get("m.must", "must") + get("m.must2", "must") + " }\n" +
 		"    leaf mt { type b:bt; }\n    leaf mr { " + typeOr("m.path") + " }\n  }\n}\n"
 	am := "module a2 { namespace \"urn:a2\"; prefix a2; import m { prefix m; } import c { prefix z; }\n" +
-		"  augment /m:mtop {" + get("a2.augwhen", "when") + "\n    leaf al { type string;" + get("a2.must", "must") + get("a2.when", "when") + " }\n  }\n}\n"
+		"  augment /m:mtop {" + get("a2.augwhen", "when") + "\n    leaf al { type string;" + get("a2.must", "must") + get("a2.must2", "must") + get("a2.when", "when") + " }\n  }\n}\n"
 	return []string{cm, dm, bm, mm, am}
+}
+
+func refineBody(s string) string {
+	if s == "" {
+		return ""
+	}
+	return " refine bl {" + s + " }"
 }
 
 func usesBody(s string) string {
